@@ -5,6 +5,7 @@ import (
 	"context"
 	"crypto/sha256"
 	"fmt"
+	"os"
 	"strings"
 	"sync"
 
@@ -51,9 +52,12 @@ func (d *doc) clone() *doc {
 }
 
 const (
-	fmtAmino = "amino"
-	fmtProto = "proto"
+	fmtAmino   = "amino"      // legacytx.StdSignBytes (what legacy clients and the encoder's protobuf path render)
+	fmtProto   = "proto"      // SIGN_MODE_DIRECT SignDoc
+	fmtAminoTx = "amino-x/tx" // SIGN_MODE_LEGACY_AMINO_JSON bytes of the application's sign-mode handler (what the ante handler verifies)
 )
+
+var formats = []string{fmtAmino, fmtProto, fmtAminoTx}
 
 // renderAmino is the legacy amino-JSON sign document (legacytx.StdSignBytes).
 func (d *doc) renderAmino() []byte {
@@ -93,16 +97,19 @@ func (d *doc) renderProto(pub *ethsecp256k1.PubKey) []byte {
 	return bz
 }
 
-func (d *doc) render(format string, pub *ethsecp256k1.PubKey) (bz []byte, err error) {
+func (e *docEnv) render(d *doc, format string, pub *ethsecp256k1.PubKey) (bz []byte, err error) {
 	defer func() {
 		if r := recover(); r != nil {
 			err = fmt.Errorf("render panic: %v", r)
 		}
 	}()
-	if format == fmtAmino {
+	switch format {
+	case fmtAmino:
 		return d.renderAmino(), nil
+	case fmtProto:
+		return d.renderProto(pub), nil
 	}
-	return d.renderProto(pub), nil
+	return e.txConfigBytes(d, pub, signing.SignMode_SIGN_MODE_LEGACY_AMINO_JSON)
 }
 
 // identity is the canonical rendering of the LISTED fields only (unlisted ones blanked); two docs
@@ -386,9 +393,10 @@ func (h *hashIndex) put(raw []byte, id [16]byte) bool {
 }
 
 type docEnv struct {
-	run *vh.Run
-	enc params.EncodingConfig
-	idx *hashIndex
+	run           *vh.Run
+	enc           params.EncodingConfig
+	idx           *hashIndex
+	kindsCompared sync.Map // message kind -> true once a field perturbation of it was compared
 }
 
 func short(b []byte) string {
@@ -413,11 +421,31 @@ func (e *docEnv) txConfigBytes(d *doc, pub *ethsecp256k1.PubKey, mode signing.Si
 	txb.SetMemo(d.Memo)
 	txb.SetFeeAmount(d.Fee)
 	txb.SetGasLimit(d.Gas)
+	txb.SetTimeoutHeight(d.Timeout)
+	if d.Granter != "" {
+		txb.SetFeeGranter(sdk.MustAccAddressFromBech32(d.Granter))
+	}
+	if d.Payer != "" {
+		txb.SetFeePayer(sdk.MustAccAddressFromBech32(d.Payer))
+	}
 	if err := txb.SetSignatures(signing.SignatureV2{PubKey: pub, Data: &signing.SingleSignatureData{SignMode: signing.SignMode_SIGN_MODE_DIRECT}, Sequence: d.Seq}); err != nil {
 		return nil, err
 	}
 	sd := authsigning.SignerData{ChainID: d.ChainID, AccountNumber: d.AccNum, Sequence: d.Seq, PubKey: pub, Address: sdk.AccAddress(pub.Address()).String()}
 	return authsigning.GetSignBytesAdapter(context.Background(), e.enc.TxConfig.SignModeHandler(), mode, sd, txb.GetTx())
+}
+
+// verify calls the repository's PubKey.VerifySignature; a panic escaping it (the EIP-712 fallback
+// decoding a document it cannot handle) is counted and treated as "did not verify".
+func (e *docEnv) verify(pk *ethsecp256k1.PubKey, msg, sig []byte) (ok bool) {
+	defer func() {
+		if r := recover(); r != nil {
+			e.run.Count("doc.info-panic-escaping-VerifySignature", 1)
+			e.run.Distinct("verify_panic_messages", trunc(fmt.Sprint(r), 160))
+			ok = false
+		}
+	}()
+	return pk.VerifySignature(msg, sig)
 }
 
 func (e *docEnv) checkDoc(i int) {
@@ -445,7 +473,7 @@ func (e *docEnv) checkDoc(i int) {
 			f    string
 			mode signing.SignMode
 		}{{fmtAmino, signing.SignMode_SIGN_MODE_LEGACY_AMINO_JSON}, {fmtProto, signing.SignMode_SIGN_MODE_DIRECT}} {
-			mine, err1 := d.render(fm.f, pub)
+			mine, err1 := e.render(d, fm.f, pub)
 			theirs, err2 := e.txConfigBytes(d, pub, fm.mode)
 			switch {
 			case err1 != nil || err2 != nil:
@@ -455,16 +483,28 @@ func (e *docEnv) checkDoc(i int) {
 			default:
 				run.Count("doc.txconfig-signbytes-differ:"+fm.f, 1)
 				run.Distinct("txconfig_differ_kinds", fm.f+":"+strings.Join(d.Kinds, "+"))
+				if os.Getenv("C19_DEBUG") != "" && len(d.Msgs) == 1 {
+					fmt.Printf("DIFF %s\n mine  =%s\n theirs=%s\n", d.Kinds, mine, theirs)
+				}
 			}
 		}
 	}
 
-	var rawByFmt [2][]byte
-	for fi, format := range []string{fmtAmino, fmtProto} {
-		bzA, err := d.render(format, pub)
+	var rawByFmt [3][]byte
+	var aminoA []byte
+	for fi, format := range formats {
+		bzA, err := e.render(d, format, pub)
 		if err != nil {
 			run.Count("doc.base-render-failed:"+format, 1)
 			continue
+		}
+		if format == fmtAminoTx && bytes.Equal(bzA, aminoA) {
+			// the handler renders this document exactly like StdSignBytes: already covered above
+			run.Count("doc.amino-x/tx-bytes-equal-amino(skipped)", 1)
+			continue
+		}
+		if format == fmtAmino {
+			aminoA = bzA
 		}
 		rawA, err := typedBytes(bzA)
 		if err != nil {
@@ -491,15 +531,15 @@ func (e *docEnv) checkDoc(i int) {
 			panic(err)
 		}
 		// positive direction
-		if !pub.VerifySignature(bzA, sig712) {
+		if !e.verify(pub, bzA, sig712) {
 			run.Violation("eip712-signature-rejected-for-own-doc:"+format, label, map[string]any{"doc": d.describe(), "sign_bytes": short(bzA), "typed_bytes": short(rawA), "sig": short(sig712), "pub": short(pub.Key)})
 		}
-		if !pub.VerifySignature(bzA, sigDirect) {
+		if !e.verify(pub, bzA, sigDirect) {
 			run.Violation("direct-signature-rejected-for-own-doc:"+format, label, map[string]any{"doc": d.describe(), "sign_bytes": short(bzA), "sig": short(sigDirect), "pub": short(pub.Key)})
 		}
 		run.Count("doc.positive-verified:"+format, 2)
 		// another key
-		if other.VerifySignature(bzA, sig712) || other.VerifySignature(bzA, sigDirect) {
+		if e.verify(other, bzA, sig712) || e.verify(other, bzA, sigDirect) {
 			run.Violation("eip712-signature-verifies-under-other-key", label, map[string]any{"doc": d.describe(), "sig": short(sig712), "signer_pub": short(pub.Key), "other_pub": short(other.Key)})
 		}
 		run.Count("doc.other-key-rejected:"+format, 1)
@@ -508,8 +548,8 @@ func (e *docEnv) checkDoc(i int) {
 				"typed_bytes": short(rawA), "perturbation_classes": classNames(perts)})
 		}
 
-		for _, p := range perts {
-			bzB, err := p.doc.render(format, pub)
+		for pi, p := range perts {
+			bzB, err := e.render(p.doc, format, pub)
 			if err != nil {
 				run.Count("doc.pert-render-failed:"+p.group, 1)
 				continue
@@ -544,12 +584,15 @@ func (e *docEnv) checkDoc(i int) {
 			default:
 				run.Count("doc.hash-differs:"+format+":"+p.group, 1)
 				run.Nontrivial("doc|" + format + "|" + p.class)
+				if p.group == "msg-field" {
+					e.kindsCompared.Store(p.kind, true)
+				}
 				if !p.unlisted && !e.idx.put(rawB, p.doc.identity()) {
 					run.Violation("eip712-hash-collision:global", label, witness(map[string]any{"typed_bytes_B": short(rawB),
 						"note": "perturbed document B collides with an unrelated document seen earlier in this run"}))
 				}
 			}
-			if pub.VerifySignature(bzB, sig712) {
+			if e.verify(pub, bzB, sig712) {
 				if p.unlisted {
 					run.Count("doc.unlisted-field-signature-still-verifies:"+format+":"+p.class, 1)
 				} else {
@@ -558,10 +601,12 @@ func (e *docEnv) checkDoc(i int) {
 			} else {
 				run.Count("doc.sig712-rejected-for-perturbed:"+format+":"+p.group, 1)
 			}
-			if pub.VerifySignature(bzB, sigDirect) {
-				run.Violation("direct-signature-verifies-for-other-doc:"+p.class, label, witness(map[string]any{"sig_over_sign_bytes_A": short(sigDirect)}))
-			} else {
-				run.Count("doc.sigdirect-rejected-for-perturbed:"+format, 1)
+			if (pi+i)%4 == 0 { // the plain-signature leg on a quarter of the perturbations (it costs a third of the work)
+				if e.verify(pub, bzB, sigDirect) {
+					run.Violation("direct-signature-verifies-for-other-doc:"+p.class, label, witness(map[string]any{"sig_over_sign_bytes_A": short(sigDirect)}))
+				} else {
+					run.Count("doc.sigdirect-rejected-for-perturbed:"+format, 1)
+				}
 			}
 		}
 	}
@@ -572,6 +617,13 @@ func (e *docEnv) checkDoc(i int) {
 			run.Count("doc.amino-and-proto-share-typed-data", 1)
 		} else {
 			run.Count("doc.amino-and-proto-typed-data-differ", 1)
+		}
+	}
+	if rawByFmt[0] != nil && rawByFmt[2] != nil {
+		if bytes.Equal(rawByFmt[0], rawByFmt[2]) {
+			run.Count("doc.amino-and-amino-x/tx-share-typed-data", 1)
+		} else {
+			run.Count("doc.amino-and-amino-x/tx-typed-data-differ", 1)
 		}
 	}
 }
